@@ -61,9 +61,12 @@ class Flavor(object):
         self.client_kw = client_kw or {}
         self.fresh_keys = fresh_keys
 
-    def client_gen(self, conn):
+    def client_gen(self, conn, blocking=False):
+        """generator of the asynchronous handshake; with blocking=True the
+        blocking call itself is made (returns None when it is done)"""
         kw = dict(session=self.session, settings=self.cset,
-                  checker=self.checker_c, serverName=self.sni, async_=True)
+                  checker=self.checker_c, serverName=self.sni,
+                  async_=not blocking)
         kw.update(self.client_kw)
         if self.kind in ("cert", "psk"):
             chain = key = None
@@ -78,7 +81,7 @@ class Flavor(object):
             return conn.handshakeClientAnonymous(**kw)
         raise ValueError(self.kind)
 
-    def server_gen(self, conn):
+    def server_gen(self, conn, blocking=False):
         kw = dict(settings=self.sset, checker=self.checker_s,
                   sessionCache=self.session_cache, alpn=self.alpn_s,
                   nextProtos=self.npn_s, reqCert=self.req_cert)
@@ -91,6 +94,8 @@ class Flavor(object):
         if self.kind == "anon":
             kw.update(anon=True)
         kw.update(self.server_kw)
+        if blocking:
+            return conn.handshakeServer(**kw)
         return conn.handshakeServerAsync(**kw)
 
 
